@@ -344,7 +344,15 @@ func (x *wexec) step(si int, s WStep) {
 		}
 	case "deadline":
 		var t time.Time
-		if s.Deadline > 0 {
+		switch {
+		case s.Deadline == 4:
+			t = time.Date(2500, 1, 1, 0, 0, 0, 0, time.UTC) // beyond what fits in 64-bit nanoseconds since 1970
+		case s.Deadline == 5:
+			t = time.Date(9999, 12, 31, 23, 59, 59, 0, time.UTC)
+		case s.Deadline == 6:
+			t = time.Unix(0, 0) // a deadline like any other past instant, not "none"
+		}
+		if t.IsZero() && s.Deadline > 0 {
 			t = x.tw.Base.Add(time.Duration(s.Deadline) * time.Hour)
 		} else if s.Deadline < 0 {
 			t = x.tw.Base.Add(-time.Hour) // long expired
@@ -783,7 +791,7 @@ func genWStep(t *rapid.T, w int, o WGenOpts) WStep {
 	case k < 94:
 		s = WStep{Op: "level", Level: rapid.IntRange(-4, 11).Draw(t, "level")}
 	case k < 96:
-		s = WStep{Op: "deadline", Deadline: rapid.IntRange(0, 3).Draw(t, "dl")}
+		s = WStep{Op: "deadline", Deadline: rapid.SampledFrom([]int{0, 1, 2, 3, 1, 2, 4, 5, 6}).Draw(t, "dl")}
 	default:
 		if !o.AllowBad {
 			s = WStep{Op: "msg", MT: websocket.TextMessage, Data: genPayload(t, "p", w, false)}
